@@ -8,7 +8,10 @@ import (
 
 // C13: lexing is lossless.
 func verifHarness_C13(n, mode int) {
-	x := verifInput(n, mode)
+	verifC13Text(verifInput(n, mode))
+}
+
+func verifC13Text(x string) {
 	l := &Lexer{File: &token.File{FilePath: "f", Buffer: x}}
 	pos := 0
 	for i := 0; ; i++ {
